@@ -296,6 +296,27 @@ def check_stop(chk: Check, repo: Repo) -> None:
     chk.ob("producer-stops-before-the-consumer", xs.site(), ok2, "XKNX.stop(): join() (drain), then the interface, then the telegram queue" if ok2 else "XKNX.stop() ends the queue's consumer before the interface that feeds it: a frame received meanwhile lands behind the stop sentinel and is never marked done (a later join()/stop() hangs)", key="stop|order")
 
 
+def check_unguarded_steps(chk: Check, repo: Repo) -> None:
+    """"never stall": the consumer task ends with whatever escapes a statement of its loop that is not inside the
+    isolating try - every later telegram then stays in the queue.  The one such call that runs repository code on the
+    telegram's content is the eager decode (GroupAddressDPT.set_decoded_data): it raises nothing (E1 may-raise analysis
+    down to the datapoint decoders, whose declared errors it handles)."""
+    from .e1_common import check_entry, engine, finish
+    tq = repo.func("xknx.core.telegram_queue", "TelegramQueue._telegram_consumer")
+    cfg = CFG(tq.node)
+    unguarded = sorted({call_name(c) for n in cfg.nodes if n.kind == "stmt" and n.ast is not None and n.loops and not n.tries and not n.handlers for c in ast.walk(n.ast) if isinstance(c, ast.Call) and "set_decoded_data" in call_name(c)})
+    if not unguarded:
+        chk.ob("consumer-steps-outside-the-guard-raise-nothing", tq.site(), True, "the eager decode runs inside the isolating try", key="unguarded|none")
+        return
+    mr = engine(repo)
+    sd = repo.func("xknx.core.group_address_dpt", "GroupAddressDPT.set_decoded_data")
+    reviewed = {
+        "AssertionError|GroupAddressDPT.set_decoded_data|…": ("the assertion restates the telegram model: a GroupValueWrite / GroupValueResponse payload is addressed to a group address (CEMIHandler routes individually addressed frames to management, the senders build group telegrams)", None),
+    }
+    check_entry(chk, mr, sd, (), label="eager decode in the consumer loop", rule="consumer-steps-outside-the-guard-raise-nothing", reviewed=reviewed)
+    finish(chk, mr)
+
+
 def run(chk: Check, repo: Repo) -> None:
     check_stop(chk, repo)
     check_restart(chk, repo)
@@ -304,6 +325,7 @@ def run(chk: Check, repo: Repo) -> None:
     check_processing(chk, repo)
     check_pacer_owner(chk, repo)
     check_structure(chk, repo)
+    check_unguarded_steps(chk, repo)
     chk.rule("E4 pairing by abstract path enumeration of one loop iteration of the consumer and the rate limiter over telegram kind x processing outcome (incl. exceptional exits through finally)")
     chk.rule("E5/E4 structure: FIFO queues, single consumer pair, in-line processing, sentinel shutdown")
     chk.assume("asyncio.Queue is FIFO; does not decide the measured 1/r spacing (event-loop clock)")
